@@ -1616,6 +1616,26 @@ func corpusHistoryCrossKind() *cfgHistory {
 	return h
 }
 
+// a fixed history: a serving configuration, then a series of reloads that each fail at the last
+// listener (its address is held by somebody else) after everything before it — new keys on the
+// retained addresses — has been set up. Clients of the serving configuration hammer the retained
+// addresses throughout: the configuration that fails must never have served one of them.
+func corpusHistoryFailingReloads(n int) *cfgHistory {
+	h := &cfgHistory{NAddrs: 4, NLegacy: 2, Replay: 0}
+	old := cfgKeyC{ID: "k911", Cipher: 0, Secret: 1}
+	base := cfgFile{Svcs: []cfgSvc{{Ls: []cfgListener{{Type: 0, Addr: 0}, {Type: 0, Addr: 1}}, Keys: []cfgKeyC{old}}},
+		Legacy: []cfgLegacy{{Key: old, Port: 0}}}
+	h.Files = append(h.Files, base)
+	for i := 0; i < n; i++ {
+		nk := cfgKeyC{ID: fmt.Sprintf("k92%d", i), Cipher: 1 + i%3, Secret: 2 + i%3}
+		f := cfgFile{Svcs: []cfgSvc{{Ls: []cfgListener{{Type: 0, Addr: 0}, {Type: 0, Addr: 1}, {Type: 1, Addr: 0}, {Type: 1, Addr: 1}, {Type: 0, Addr: 3}}, Keys: []cfgKeyC{nk}}},
+			Legacy: []cfgLegacy{{Key: nk, Port: 0}}, Fault: "prebound", Prebind: []int{-1}}
+		h.Files = append(h.Files, f)
+	}
+	h.fillKeys()
+	return h
+}
+
 func (h *cfgHistory) fillKeys() {
 	// probe keys: every valid (cipher, secret) of any file, plus one that never appears
 	seen := map[probeKey]bool{}
@@ -1660,6 +1680,13 @@ func cfgScenario(prop string, faultBias int, traffic bool, nQuick, nThorough int
 		}
 		if len(hs) > 1 {
 			hs[len(hs)-1] = corpusHistoryCrossKind() // corpus
+		}
+		if len(hs) > 2 && traffic {
+			nfail := 6
+			if ctx.Thorough() {
+				nfail = 30
+			}
+			hs[len(hs)-2] = corpusHistoryFailingReloads(nfail)
 		}
 		if ctx.ReplayF != "" {
 			if b, err := os.ReadFile(ctx.ReplayF); err == nil {
